@@ -2,7 +2,7 @@
 From stdpp Require Import list numbers option.
 From RecordUpdate Require Import RecordUpdate.
 From L1 Require Import Model Own Shape Stuck.
-From L1h Require Import Hist Abs SimBase.
+From L1h Require Import WeakWF Hist Abs SimBase.
 
 (* an immediate sync / try_sync is only chosen when no job is stored *)
 Record imm_conditions (T : tables) : Prop := {
@@ -35,16 +35,16 @@ Ltac phase_tac Ea Est :=
 Section Sim.
   Context (T : tables) (F : facts) (HT : own_conditions T) (HI : imm_conditions T).
 
-  Lemma step_sim s a s' : Shape s -> Inv s -> WF s -> step T F s a = Some s' -> astep (view s) a (obs' T s a s') (view s').
+  Lemma step_sim s a s' : Shape s -> Inv s -> WF' s -> step T F s a = Some s' -> astep (view s) a (obs' T s a s') (view s').
   Proof.
     intros HS HIv HW Hstep. unfold step in Hstep.
     destruct (actors s !! a) as [ac|] eqn:Ea; cbn in Hstep; [|congruence].
     destruct (stack ac) as [|fr rest] eqn:Est; [congruence|].
     pose proof (kind_of s a ac HS Ea) as Hkind. rewrite Est in Hkind.
     pose proof (fun q' => stack_cnt_self s a ac q' Ea) as Hcnt. rewrite Est in Hcnt.
-    pose proof (WF_self s a ac HW Ea) as Hwf. rewrite Est in Hwf. cbn [forallb] in Hwf. apply andb_true_iff in Hwf as [Hfrok _].
+    pose proof (WF'_self s a ac HW Ea) as Hwf. rewrite Est in Hwf. cbn [forallb] in Hwf. apply andb_true_iff in Hwf as [Hfrok _].
     destruct fr.
-    all: cbn [frame_ok] in Hfrok.
+    all: cbn [frame_ok' frame_ok] in Hfrok.
     all: cbn beta iota zeta in Hstep.
     all: repeat (first
          [ match type of Hstep with
